@@ -33,3 +33,13 @@ claim("C08", "E3", "model_checking",
       "explicit enumeration of all packet histories up to a depth on the real Serve loop in lock-step with a connection model",
       "All histories of (session, sequence number, handler action) up to depth 4 (quick) / 5 (thorough) are executed on fresh scripted connections; the invoked handler instance, the output and the open/closed state are compared with the reference connection model after every event.",
       "two session ids, eight sequence values, histories deeper than the bound are not explored", "3/C08")
+claim("C19", "E1", "exploration",
+      "bounded-exhaustive enumeration of the bytes the server sees (and of key pairs) on the real read path, classified by an independent length-consistency evaluator",
+      "Every combination of leading body octets over {0,1,2,255} with 0..3 trailing bytes for each packet type, 16-bit length pairs, 5x5 key pairs over a corpus of valid requests and the same bytes in the clear are delivered to the real server; "
+      "bytes inconsistent under every layout must be answered by exactly one ERROR packet of the type and a close without any handler, exact requests and clear packets must be processed, anything else must be one of the two complete behaviours.",
+      "octet values outside {0,1,2,255} in the first nine positions are covered only through the key-pair plane", "3/C19")
+claim("C20", "E3", "model_checking",
+      "explicit enumeration of connection histories on the real Serve loop with gauge conservation checked at every idle point and after Serve returns",
+      "All histories up to the depth over opens, refused opens, packets on two sessions (accepted, even, replayed, continuation left open), key mismatch, oversize header and client close on up to two connections are run in a fresh world; "
+      "the four in-flight gauges read from the default registry must never be below rest and must be back at rest after teardown.",
+      "histories deeper than the bound and more than two connections are not explored", "3/C20")
